@@ -44,13 +44,27 @@ Proof. exact commitment_injective. Qed.
 
 Theorem C12_accepted_only_if_signed : forall w,
   validate_shred None w = SOk ->
+  index_in_width w = true /\
   w_sig_by_leader w = true /\ w_sig_msg w = commitment_bytes (w_slot w) (w_slice w) (w_last w) (shred_root w).
 Proof. exact accepted_only_if_signed. Qed.
 
+(* the shred index has to lie within the width of the tree spanned by the path (the derivation of the root ignores
+   surplus index bits): otherwise the shred is rejected, cached commitment or not.  The pinned tree accepted a
+   payload at every alias position i + k * 2^(path length) of a smaller tree the leader signed (repaired by bac8e06) *)
+Theorem C12_alias_index_rejected : forall c w, index_in_width w = false -> validate_shred c w = SInvalidSignature.
+Proof. exact alias_index_rejected. Qed.
+
+Theorem C12_pinned_alias_index_accepted_refuted :
+  exists w, index_in_width w = false /\ validate_shred_gen false None w = SOk /\ validate_shred None w = SInvalidSignature.
+Proof.
+  exists (mkW 1 0 false 2 [] [[]] true true (commitment_bytes 1 0 false (s_derive_root [] 2 [[]]))).
+  vm_compute. repeat split; reflexivity.
+Qed.
+
 Theorem C12_cache_shortcuts_only_identical : forall c w,
-  (validate_shred (Some c) w = SOk <-> c = shred_commitment w) /\
+  (validate_shred (Some c) w = SOk <-> index_in_width w = true /\ c = shred_commitment w) /\
   (validate_shred (Some c) w = SEquivocation <->
-     c <> shred_commitment w /\ w_sig_by_leader w = true /\ w_sig_msg w = shred_commitment w).
+     index_in_width w = true /\ c <> shred_commitment w /\ w_sig_by_leader w = true /\ w_sig_msg w = shred_commitment w).
 Proof. exact cache_shortcuts_only_identical. Qed.
 
 (* the root derived from (payload, index, path) equals an honest slice tree's root only if the payload is the
@@ -131,6 +145,8 @@ Proof. vm_compute. repeat split; reflexivity. Qed.
 Print Assumptions C12_commitment_injective.
 Print Assumptions C12_accepted_only_if_signed.
 Print Assumptions C12_cache_shortcuts_only_identical.
+Print Assumptions C12_alias_index_rejected.
+Print Assumptions C12_pinned_alias_index_accepted_refuted.
 Print Assumptions C12_payload_bound_to_position.
 Print Assumptions C12_conflicting_commitments_are_equivocation.
 Print Assumptions C12_tag_flip_is_harmless.
